@@ -92,7 +92,7 @@ class Oracle:
     def step(self, op, line):
         w = op.split()
         if " | " not in line:
-            return "malformed result line"
+            raise ValueError("malformed result line")      # truncated by a dying harness, or garbage
         res, dump = line.split(" | ", 1)
         r = res.split()
         if r and r[0].startswith("allocs="):      # allocation attempts of the call (overlay C11/C15)
@@ -105,7 +105,7 @@ class Oracle:
             return None if r and r[0] == "skip" else "harness rejected the operation"
         if r[0] == "fault":
             return "undefined behaviour predicted: " + res
-        if kind == "new":
+        if kind in ("new", "end"):     # `end`: the table is released and replaced by an empty default one
             m.clear()
         elif kind in ("put", "putstr", "putstrf", "putint"):
             name = unhex(w[1])
@@ -147,6 +147,18 @@ class Oracle:
                 bad = "size reported %s, the map holds %d keys" % (res, len(m))
         elif kind == "clear":
             m.clear()
+        elif kind == "inv":
+            # documented-invalid arguments (NULL name / data / obj): every call fails with EINVAL,
+            # debug(NULL stream) with EIO, no out-parameter is written, the table is unchanged
+            # (the dump is compared with the map below)
+            if len(r) != 19 or any(x != "0:EINVAL" for x in r[1:17]) or r[17] != "0:EIO" or r[18] != "sz=99":
+                bad = ("a call with a NULL argument did not fail with EINVAL (debug: EIO), or wrote *size "
+                       "(result:errno per call: put(NULL,v) put(k,NULL) put(NULL,NULL) putstr(NULL,v) putstr(k,NULL) "
+                       "putstrf(NULL) putint(NULL) get(NULL)x3 getstr(NULL)x2 getint(NULL) remove(NULL) getnext(NULL)x2 "
+                       "debug(NULL)): %s" % " ".join(r[1:]))
+        elif kind == "lock":
+            if res != "locked size %d" % len(m):
+                bad = "size inside lock/unlock reported %s, the map holds %d keys" % (res, len(m))
         elif kind == "walk":
             toks = r[1:]
             got, i = [], 0
@@ -294,7 +306,9 @@ class TheCheck(Check):
                       10 ** 18, -10 ** 18] + [rng.randrange(INT64_MIN, INT64_MAX + 1) for _ in range(30)]:
                 ops += [kop("putint", b"n", str(n)), kop("getint", b"n"), kop("getstr", b"n")]
             for s in [b"12", b" \t\n\v\f\r 42x", b"+7", b"-0", b"--1", b"99999999999999999999", b"-99999999999999999999",
-                      b"9223372036854775808", b"-9223372036854775809", b"x", b"", b"+", b"-", b"1 2", b"\x0e1"]:
+                      b"9223372036854775808", b"-9223372036854775809", b"x", b"", b"+", b"-", b"1 2", b"\x0e1",
+                      b"010", b"0x1f", b"0X1F", b" 42", b"1e3", b"12abc", b"+-1", b"\t-5", b"4294967296", b"-9223372036854775808",
+                      b"9223372036854775807", b"0000000000000000000000017", b"- 1", b"\xa0" + b"7", b"1\t", b"\xd9\xa3"]:
                 ops += [kop("putstr", b"s", hexs(s)), kop("getint", b"s"), kop("getstr", b"s")]
             ops += [kop("put", b"s", hexs(b"12\x0034")), kop("getint", b"s"), kop("put", b"s", hexs(b"12")), kop("getint", b"s"),
                     kop("getstr", b"s"), kop("getint", b"absent"), kop("getstr", b"absent")]
@@ -323,6 +337,26 @@ class TheCheck(Check):
             ops += ["walk 0", "clear"]
         sts.append(Stream("putstrf-lengths", ops, history=True, note="every formatted length 0..2100, 4090..4100, 5000, 8191..8193, 10000"))
 
+        # 3d. argument validation, method pointers, constructor variants: every documented-invalid call on an
+        #     empty table, with one / several entries, after removals and after clear; plain and thread-safe
+        #     tables (single-threaded use must behave identically); default, tiny and large index ranges
+        ops = []
+        for r in (0, 1, 2, 3, 1000):
+            for ts in "01":
+                keys = colliding(r or 1000, 3, b"v", start=rng.randrange(300)) + [b"", b"solo"]
+                ops += ["new %d %s" % (r, ts), "inv", "lock", "size", "walk 0", kop("put", keys[0], "31"), "inv", "lock"]
+                for i, k in enumerate(keys[1:]):
+                    ops += [kop("put", k, hexs(b"w%d" % i)), "inv"]
+                ops += ["lock", "walk 1", kop("get", keys[1], "1"), kop("putint", keys[0], "-12"), kop("getint", keys[0]), "inv",
+                        kop("rm", keys[1]), "inv", kop("rm", keys[1]), "reset", "next 1", "inv", "next 0", "clear", "inv", "lock", "size",
+                        kop("putstrf", keys[2], hexs(b"after clear")), "inv", "walk 0"]
+        for r in (100003, 1 << 20):
+            ops += ["new %d 1" % r, "inv", kop("put", b"big", "31"), kop("put", b"range", "32"), kop("get", b"big", "1"), "inv", "lock",
+                    kop("rm", b"big"), "walk 0", "clear", "inv"]
+        ops += ["end"]
+        sts.append(Stream("invalid-args-locks-ctor", ops, history=True,
+                          note="inv = 17 documented-invalid calls; ranges 0 (default) 1 2 3 1000 100003 2^20; QHASHTBL_THREADSAFE on/off"))
+
         # 4. random histories
         nh, nops = (60, 400) if self.tier == "quick" else (400, 2000)
         ops = []
@@ -333,11 +367,15 @@ class TheCheck(Check):
             pool += [b"k%d" % rng.randrange(10 ** rng.randrange(1, 6)) for _ in range(rng.randrange(2, 14))]
             pool += [b"", b"A", b"a", bytes(rng.randrange(1, 256) for _ in range(rng.randrange(1, 40)))]
             pool += list(rng.choice(FULL_COLLISIONS))
-            ops.append("new %d" % r)
+            ops.append("new %d %s" % (r, rng.choice("01")))
             for _ in range(rng.randrange(5, nops)):
                 k = rng.choice(pool)
                 x = rng.random()
-                if x < 0.30:
+                if x < 0.02:
+                    ops.append("inv")
+                elif x < 0.03:
+                    ops.append("lock")
+                elif x < 0.30:
                     v = bytes(rng.choice([0, rng.randrange(256), rng.randrange(0x30, 0x3a)]) for _ in range(rng.choice([0, 1, 2, 5, 17, 40])))
                     ops.append(kop("put", k, hexs(v)))
                 elif x < 0.38:
